@@ -39,7 +39,8 @@ class EvalContext(metaclass=NamespaceableMeta):
             super().__init__({})
 
         def __getitem__(self, key):
-            if key not in self:
+            # a placeholder created while evaluating something below 'key' stands for 'key' only while 'key' itself is being evaluated
+            if key not in self or (isinstance(super().__getitem__(key), EvalContext.PartialChild) and id(self._cfgobj[key]) not in self._eval_ctx._in_progress):
                 node = self._cfgobj[key]
                 return self._eval_ctx.evaluate_node(node, self._path + [key])
 
@@ -84,6 +85,7 @@ class EvalContext(metaclass=NamespaceableMeta):
         self._eval_cache = {}
         self._eval_cache_id = {}
         self._unsafe_seen = 0
+        self._in_progress = set()
         self._tainted = set()
         self._eval_symbols = copy.copy(EvalContext._default_eval_symbols)
         if eval_symbols:
@@ -158,7 +160,11 @@ class EvalContext(metaclass=NamespaceableMeta):
 
             evaluated_parent = enode
 
-        evaluated_cfgobj = cfgobj.ayns.on_evaluate(prefix, self)
+        self._in_progress.add(id(cfgobj))
+        try:
+            evaluated_cfgobj = cfgobj.ayns.on_evaluate(prefix, self)
+        finally:
+            self._in_progress.discard(id(cfgobj))
         if evaluated_parent is not None:
             evaluated_parent[prefix[-1]] = evaluated_cfgobj
 
